@@ -184,6 +184,18 @@ def getattr_(interp, v, attr, node=None):
     if isinstance(v, SliceV):
         if attr in ('start', 'stop', 'step'):
             return getattr(v, attr)
+        if attr == 'indices':
+            def _indices(i, a, k, n):
+                sl, length = a[0], a[1]
+                parts = (sl.start, sl.stop, sl.step, length)
+                if all(x is None or (isinstance(x, int) and not isinstance(x, bool)) for x in parts) and length is not None:
+                    if sl.step == 0:
+                        raise Raised('ValueError', getattr(n, 'lineno', None), 'slice step cannot be zero', implicit=True)
+                    return slice(sl.start, sl.stop, sl.step).indices(length)
+                raise Unsupported("slice.indices with symbolic bounds")
+            return BoundV(v, BuiltinV('slice.indices', _indices))
+        if hasattr(slice, attr):
+            raise Unsupported(f"slice.{attr}")
         raise Raised('AttributeError', ln, attr, implicit=True)
     if isinstance(v, ExcV):
         if attr == 'args':
